@@ -1,0 +1,63 @@
+//go:build verif
+
+// Contracts for package transport_controller, checked by /verif (bfvc). Comment-only.
+// io.Reader model (rdpos, rddata): /verif/specs/io.spec.
+package transport_controller
+
+// ---- C07: stream headers are framed exactly ----
+
+// readAtLeast keeps what is already in buf[0..n), appends exactly the next bytes of the
+// stream, and stops as soon as min bytes are present: for every chunking of the stream.
+//@ func readAtLeast
+//@   modifies buf
+//@   requires 0 <= n && min <= len(buf)
+//@   ensures ret1 == nil ==> ret0 >= min && ret0 >= n && (ret0 <= len(buf) || ret0 == n)
+//@   ensures ret1 == nil ==> rdpos[r] == old(rdpos[r]) + (ret0 - n)
+//@   ensures rdpos[r] >= old(rdpos[r])
+//@   ensures forall i int :: 0 <= i && i < n && i < len(buf) ==> buf[i] == old(buf[i])
+//@   ensures forall i int :: n <= i && i < ret0 ==> buf[i] == rddata(r, old(rdpos[r]) + (i - n))
+//@   ensures n >= min ==> ret0 == n
+//@   loop 1 invariant old(n) <= n && (n <= len(buf) || n == old(n))
+//@   loop 1 invariant old(n) >= min ==> n == old(n)
+//@   loop 1 invariant rdpos[r] == old(rdpos[r]) + (n - old(n))
+//@   loop 1 invariant forall i int :: 0 <= i && i < old(n) && i < len(buf) ==> buf[i] == old(buf[i])
+//@   loop 1 invariant forall i int :: old(n) <= i && i < n ==> buf[i] == rddata(r, old(rdpos[r]) + (i - old(n)))
+
+// The header as a function of the stream: hb = number of varint bytes among the first
+// four stream bytes, hl = the varint's value = header length.
+//@ spec fun hdrVarLen(r iface, p int) int = pbVarintLen(rdstr(r, p, p + 4))
+//@ spec fun hdrLen(r iface, p int) int = pbVarintVal(rdstr(r, p, p + 4))
+
+// On success: the varint is well formed (1..4 bytes), the length is 1..100000, the
+// message is decoded from exactly the hl bytes after the varint, and — whenever the header
+// does not end inside the 4-byte prefix (always so for a non-empty protocol ID) — exactly
+// hb + hl bytes have been consumed: every later byte is left for the application.
+//@ func readStreamEstablishHeader
+//@   noframe
+//@   assert at exit: ret1 == nil ==> content(b) == rdstr(r, old(rdpos[r]), old(rdpos[r]) + 4)
+//@   assert at exit: ret1 == nil ==> headerLenBytes == hdrVarLen(r, old(rdpos[r])) && headerLen == hdrLen(r, old(rdpos[r]))
+//@   assert at exit: ret1 == nil ==> content(headerBuf) == rdstr(r, old(rdpos[r]) + headerLenBytes, old(rdpos[r]) + headerLenBytes + headerLen)
+//@   ensures ret1 == nil ==> 1 <= hdrVarLen(r, old(rdpos[r])) && hdrVarLen(r, old(rdpos[r])) <= 4
+//@   ensures ret1 == nil ==> 1 <= hdrLen(r, old(rdpos[r])) && hdrLen(r, old(rdpos[r])) <= 100000
+//@   ensures ret1 == nil ==> ret0 != nil && ret0.ProtocolId == sePBpid(rdstr(r, old(rdpos[r]) + hdrVarLen(r, old(rdpos[r])), old(rdpos[r]) + hdrVarLen(r, old(rdpos[r])) + hdrLen(r, old(rdpos[r]))))
+//@   ensures ret1 == nil && hdrVarLen(r, old(rdpos[r])) + hdrLen(r, old(rdpos[r])) >= 4 ==> rdpos[r] == old(rdpos[r]) + hdrVarLen(r, old(rdpos[r])) + hdrLen(r, old(rdpos[r]))
+//@   assert at make: size <= 100000
+
+// ---- C07 / C04: dispatch of an accepted stream ----
+//@ func newMountedLink
+//@   ensures ret != nil && ret.c == c && ret.tpt == tpt && ret.link == link
+//@   fresh ret
+
+//@ func newMountedStream
+//@   ensures ret != nil && ret.protocolID == protocolID && ret.linkPeer == link.GetRemotePeer() && ret.link == link && ret.strm == strm
+//@   fresh ret
+
+// The handler lookup for an accepted stream carries exactly the protocol ID decoded from the
+// header (valid: non-empty UTF-8) and the link's local and remote peers; a header that cannot be
+// read or carries an invalid protocol ID never reaches the lookup.
+//@ func (*Controller).HandleIncomingStream
+//@   noframe
+//@   requires c.bus != nil
+//@   assert at call link.NewHandleMountedStream: arg0 == streamEst.ProtocolId && arg0 != "" && utf8Valid(arg0)
+//@   assert at call link.NewHandleMountedStream: arg1 == lnk.GetLocalPeer() && arg2 == lnk.GetRemotePeer()
+//@   assert at call bus.ExecOneOff: same(arg2, dir)
